@@ -8,7 +8,7 @@ import engine
 from engine import Op, set_mode
 
 PROP = "C09"
-LEAN_MODULES = ["IsoDT.Props.C09", "IsoDT.Props.C09b"]
+LEAN_MODULES = ["IsoDT.Props.C09", "IsoDT.Props.C09b", "IsoDT.Props.C09c"]
 RULE = ("constructor: keyword tuples in and around every legal range (month 0/1/12/13, day 0/1/last/last+1 per "
         "month and year type, ordinal 0/1/365/366/367, week 0/1/52/53/54, weekday 0/1/7/8, hour 23/24/25, 24:xx, "
         "minute/second 59/60, zone parts around +-99/+-59 and of conflicting sign), every mode and year type, "
@@ -610,9 +610,9 @@ class TruncAccept(Op):
             if name:
                 props[name] = int(val.partition("+")[0])
         if "year_of_century" in props:
-            years = [y for y in range(0, 400) if y % 100 == props["year_of_century"]]
+            years = [y for y in range(0, 2800) if y % 100 == props["year_of_century"]]
         elif "year_of_decade" in props:
-            years = [y for y in range(0, 400) if y % 10 == props["year_of_decade"]]
+            years = [y for y in range(0, 2800) if y % 10 == props["year_of_decade"]]
         else:
             return None
         m = a[1]
@@ -634,7 +634,130 @@ class TruncAccept(Op):
         return "truncaccept/%s/%s" % (a[0], a[1])
 
 
+class MkTrunc(Op):
+    """`TimePoint(truncated=True, ...)` with integral arguments against the model `mkTruncTP`
+    (lean/IsoDT/Model/ConstructTrunc.lean; theorems Props/C09c): refused or not, the slots kept, what
+    `get_truncated_properties()` reports, the zone.  The oracle is the property's own clause read for truncated
+    points: every kept field legal, at most one date notation, and with a year (short or not) the date possible
+    in some year ending in the same digits."""
+    prop = PROP
+    name = "mktrunc"
+
+    KEYS = ["year", "month_of_year", "day_of_month", "day_of_year", "week_of_year", "day_of_week",
+            "hour_of_day", "minute_of_hour", "second_of_minute", "time_zone_hour", "time_zone_minute"]
+    TPROPS = {"-": None, "c": "year_of_century", "d": "year_of_decade"}
+    POOLS = [[0, 1, 3, 4, 5, 9, 10, 15, 16, 20, 26, 96, 99, 100, 2000, 2001, 2015, -1, -4],
+             [-1, 0, 1, 2, 2, 2, 3, 4, 11, 12, 13], [-1, 0, 1, 28, 29, 29, 30, 31, 32],
+             [-1, 0, 1, 59, 60, 359, 360, 361, 365, 366, 366, 367], [-1, 0, 1, 51, 52, 53, 53, 54],
+             [-1, 0, 1, 7, 8], [-1, 0, 1, 23, 24, 24, 25], [-1, 0, 0, 1, 59, 60], [-1, 0, 0, 1, 59, 60],
+             [-100, -99, -12, -1, 0, 1, 12, 99, 100], [-60, -59, -30, -1, 0, 1, 30, 59, 60]]
+
+    def gen(self, rng, tier, boost):
+        n = (3000 if tier == "quick" else 40000) * boost
+        N = None
+        for _ in range(n):
+            m = gens.mode(rng)
+            tp = rng.choice("-ccdd")
+            r = rng.random()
+            if r < 0.45:      # one date notation with a year-dependent limit, maybe a time
+                y = N if tp == "-" and rng.random() < 0.7 else rng.choice(self.POOLS[0] + [rng.randint(0, 99)])
+                kind = rng.randint(0, 2)
+                v = [y, N, N, N, N, N, N, N, N, N, N]
+                if kind == 0:
+                    v[1] = rng.choice([N, 2, 2, rng.randint(1, 12)])
+                    v[2] = rng.choice([N, 28, 29, 29, 30, 31, rng.randint(1, 31)])
+                elif kind == 1:
+                    v[3] = rng.choice([359, 360, 361, 365, 366, 366, 367, rng.randint(1, 366)])
+                else:
+                    v[4] = rng.choice([N, 52, 53, 53, 54, rng.randint(1, 53)])
+                    v[5] = rng.choice([N, rng.randint(1, 7)])
+                if rng.random() < 0.4:
+                    v[6] = rng.choice([N, 0, 6, 23, 24])
+                    v[7] = rng.choice([N, 0, 30])
+                    v[8] = rng.choice([N, 0, 59])
+                if rng.random() < 0.2:
+                    v[9] = rng.choice([N, 0, 5, -3])
+                    v[10] = rng.choice([N, 0, 30 if (v[9] or 0) >= 0 else -30])
+            else:             # any mixture, conflicts included
+                v = []
+                for i, pool in enumerate(self.POOLS):
+                    absent = 0.35 if i == 0 else 0.6
+                    v.append(N if rng.random() < absent else rng.choice(pool))
+            yield (m, tp) + tuple(v)
+
+    def line(self, a):
+        return "mktrunc %s %s %s" % (a[0], a[1], " ".join("_" if x is None else str(x) for x in a[2:]))
+
+    def impl(self, a):
+        from metomi.isodatetime.data import TimePoint
+        set_mode(a[0])
+        kw = {k: v for k, v in zip(self.KEYS, a[2:]) if v is not None}
+        if self.TPROPS[a[1]] is not None:
+            kw["truncated_property"] = self.TPROPS[a[1]]
+        try:
+            p = TimePoint(truncated=True, **kw)
+        except ValueError:
+            return "err"
+        try:
+            d = p.get_truncated_properties()
+            items = ";".join("%s=%d" % (k, v) for k, v in d.items())
+            props = "D " + items if items else "D"
+        except TypeError:
+            props = "EXC"
+        z = p._time_zone
+        return "%s | Y=%s | tz=%s" % (props, "_" if p._year is None else str(p._year),
+                                     "unknown" if z.unknown else "%d %d" % (z.hours, z.minutes))
+
+    def oracle(self, a, out):
+        if out.startswith(("EXC:", "Timeout", "OTHER")):
+            return "%s raised %s" % (self.line(a), out)
+        if out == "err":
+            return None
+        m = a[0]
+        y, mo, dom, doy, wk, dow, hh, mi, ss, tzh, tzm = a[2:]
+        bad = None
+        if sum([mo is not None or dom is not None, doy is not None, wk is not None or dow is not None]) > 1:
+            bad = "two date notations at once"
+        elif mo is not None and not 1 <= mo <= 12:
+            bad = "month %d" % mo
+        elif dow is not None and not 1 <= dow <= 7:
+            bad = "weekday %d" % dow
+        elif hh is not None and not 0 <= hh <= 24:
+            bad = "hour %d" % hh
+        elif (mi is not None and not 0 <= mi < 60) or (ss is not None and not 0 <= ss < 60):
+            bad = "minute / second out of range"
+        elif hh == 24 and (mi or ss):
+            bad = "24:xx other than 24:00"
+        elif not oracle.tz_valid(tzh or 0, tzm or 0):
+            bad = "zone %r:%r" % (tzh, tzm)
+        else:
+            # (every calendar repeats after 2800 years: 400-year leap cycle x 7-year drift of the 360-day weeks)
+            if y is None:
+                years = range(0, 2800)
+            else:
+                years = [k for k in range(0, 2800) if k % 100 == y % 100]
+
+            def possible(k):
+                if dom is not None and dom < 1 or doy is not None and doy < 1 or wk is not None and wk < 1:
+                    return False
+                if dom is not None and dom > (oracle.month_len(m, k, mo) if mo is not None else 31 if m != "d360" else 30):
+                    return False
+                if doy is not None and doy > oracle.year_len(m, k):
+                    return False
+                if wk is not None and wk > oracle.weeks_in_year(m, k):
+                    return False
+                return True
+            if not any(possible(k) for k in years):
+                bad = "no year%s has such a date" % ("" if y is None else " ending like %d" % y)
+        if bad:
+            return "%s was accepted (%s): %s" % (self.line(a), out, bad)
+        return None
+
+    def label(self, a):
+        return "mktrunc/%s/%s" % (a[0], a[1])
+
+
 def ops():
     import common
     common.foreign_configurations()
-    return [MkTP(), TextAccept(), DecAccept(), TruncAccept(), Garbage(), ExcClasses()]
+    return [MkTP(), MkTrunc(), TextAccept(), DecAccept(), TruncAccept(), Garbage(), ExcClasses()]
